@@ -13,7 +13,7 @@ EXPLANATION = (
     "binary64 terms (z3 FloatingPoint, C fmod modelled exactly through fp.rem) and the result is proved to lie in the "
     "closed interval [-pi, pi] for every finite |a| <= 1e6."
 )
-BOUNDS = "ops {construct,+,-,inverse,copy,boxplus} x {SE2,SE3}; all operands symbolic; one inductive step (unit in => unit out)"
+BOUNDS = "ops {construct,+,-,inverse,copy,boxplus} x {SE2,SE3}; all operands symbolic; one inductive step (unit in => unit out); the optimizer's own update with an arbitrary solver output for 1 and 3 iterations (chi^2 free per state)"
 OUTSIDE = "size of accumulated rounding over long chains (64-bit nonlinear FP chains are not bit-blastable here)"
 ASSUMPTIONS = ["operands have unit quaternions", "a % m = a - m*k, k integer, 0 <= result < m", "sqrt contract"]
 
